@@ -15,7 +15,8 @@ Imports only Mathlib-free modules.
 
 Outside the model: argparse tokenisation (`--k=v` and `--k v` are one item), glob / expanduser (the ordered
 list of matching default config files is an input), the loaders (trees arrive parsed), type adaptation (values are
-in normal form: C02's subject), subcommands, groups, links, positionals.
+in normal form: C02's subject), groups, links, positionals.  Subcommand levels and the `default_env` switch over the
+parser tree: Core/SourcesSub.lean.
 -/
 namespace Jap.Src
 open Jap.NS
